@@ -208,6 +208,66 @@ theorem writers_never_garble_marker (exp : Expected) (wf : WF exp) (e : Mem) (hg
     (n : Nat) (acts : List Act) : markerGarbled (runActs exp (initFrom e n) acts).entry = false :=
   runActs_garbled exp wf acts (initFrom e n) hg
 
+/-! ### "A store that has returned is over" and "the entry only changes under the lock" -/
+
+/-- The writer (process) an action belongs to. -/
+def actWriter : Act → Nat
+  | .acquire w => w | .truncate w _ => w | .grow w _ _ => w | .fill w _ => w
+  | .fail w => w | .commit w => w | .commitFail w => w | .crash w => w
+
+/-- finished_writer_is_inert: once a store has RETURNED (with nil or with an error) or its process
+    has died, no action of that writer is enabled any more — no Put, no Write, no Close, no marker
+    put, no second acquire: the whole system (entry, lock, every pc) stays as it is.  A primitive
+    of a writer observed after its store returned is therefore outside the model (the harness
+    oracle `write-after-store-returned`; the `run` lines replay it as a no-op and disagree with
+    the entry the implementation really has). -/
+theorem finished_writer_is_inert (exp : Expected) (s : Sys) (w : Nat)
+    (hw : (∃ b, s.writers[w]? = some (WPc.finished b)) ∨ s.writers[w]? = some WPc.crashed)
+    (a : Act) (ha : actWriter a = w) : step exp s a = s := by
+  rcases hw with ⟨b, hw⟩ | hw <;>
+  cases a <;> simp only [actWriter] at ha <;> subst ha <;> simp only [step, hw]
+
+/-- … for any number of such late actions (a failed store's leftover copy jobs). -/
+theorem returned_store_writes_nothing (exp : Expected) (w : Nat) (acts : List Act)
+    (hacts : ∀ a ∈ acts, actWriter a = w) (s : Sys)
+    (hw : (∃ b, s.writers[w]? = some (WPc.finished b)) ∨ s.writers[w]? = some WPc.crashed) :
+    runActs exp s acts = s := by
+  induction acts with
+  | nil => rfl
+  | cons a rest ih =>
+    rw [runActs_cons, finished_writer_is_inert exp s w hw a (hacts a List.mem_cons_self)]
+    exact ih (fun x hx => hacts x (List.mem_cons_of_mem _ hx))
+
+/-- entry_changes_only_under_lock: in every reachable state, an action that modifies the entry is an
+    action of the writer that holds the exclusive lock (harness oracle
+    `write-without-exclusive-lock`). -/
+theorem entry_changes_only_under_lock (exp : Expected) (s : Sys) (inv : Inv exp s) (a : Act)
+    (h : (step exp s a).entry ≠ s.entry) : s.lock = some (actWriter a) := by
+  cases a with
+  | acquire w => exfalso; apply h; simp only [step]; repeat' split
+                 all_goals rfl
+  | truncate w i =>
+    simp only [step] at h; split at h
+    · rename_i d f hw; exact (inv.writing w d f hw).1
+    · exact absurd rfl h
+  | grow w i k =>
+    simp only [step] at h; split at h
+    · rename_i d f hw; exact (inv.writing w d f hw).1
+    · exact absurd rfl h
+  | fill w i =>
+    simp only [step] at h; split at h
+    · rename_i d f hw; exact (inv.writing w d f hw).1
+    · exact absurd rfl h
+  | fail w => exfalso; apply h; simp only [step]; split <;> rfl
+  | commit w =>
+    simp only [step] at h; split at h
+    · rename_i d f hw; exact (inv.writing w d f hw).1
+    · exact absurd rfl h
+  | commitFail w => exfalso; apply h; simp only [step]; split
+                    · split <;> rfl
+                    · rfl
+  | crash w => exfalso; apply h; simp only [step]; split <;> rfl
+
 /-! ### "A failed write is reported before the marker" — derived from the C15 model -/
 
 open BufModel.Faults in
@@ -381,6 +441,27 @@ set_option maxRecDepth 100000 in
 example : (storeRun BufModel.Faults.Facts.allTrue [] [markerCanonical] none ⟨[], []⟩
     (fileJobs exExp exChunk) (sideJobs exExp exChunk)).1 = false := by decide
 
+set_option maxRecDepth 100000 in
+/-- The entry the stored regression (seed C09-m8) produces: writer 1 has stored the module
+    completely; then a leftover copy job of writer 0 — whose store had already returned its error —
+    does its Put (os.Create truncates) on `files/a.proto`.  The marker is valid, the file is empty:
+    a fresh load is a digest mismatch although nobody tampered with the entry, and a reader that
+    had verified the digest before streams an empty file. -/
+theorem late_truncate_counterexample :
+    let done := runActs exExp (init 2) (Act.acquire 0 :: Act.truncate 0 1 :: Act.fail 0 :: storeWith 1 (seqSchedule 1 [0, 1, 2]))
+    let torn := putObj done.entry "files/a.proto".toList ""
+    done.writers[0]? = some (WPc.finished false) ∧ done.writers[1]? = some (WPc.finished true) ∧
+    markerOK done.entry = true ∧ markerOK torn = true ∧
+      (match load exExp done.entry with | .hit _ => true | _ => false) = true ∧
+      (match load exExp torn with | .mismatch => true | _ => false) = true ∧
+      -- whereas in the model writer 0's late Put is a no-op
+      (step exExp done (Act.truncate 0 0)).entry = done.entry := by decide
+
+-- finished_writer_is_inert / entry_changes_only_under_lock: a returned (failed) store exists, and an
+-- action that does change the entry exists (by the lock holder)
+example : (runActs exExp (init 1) [.acquire 0, .truncate 0 0, .fail 0]).writers[0]? = some (.finished false) := by decide
+example : (step exExp (runActs exExp (init 1) [.acquire 0]) (.truncate 0 0)).entry ≠ (runActs exExp (init 1) [.acquire 0]).entry ∧
+    (runActs exExp (init 1) [.acquire 0]).lock = some (actWriter (.truncate 0 0)) := by decide
 -- store_returned_nil_then_hit: a reachable state in which a store has returned success
 example : (runActs exExp (initFrom exTorn 2) (storeWith 1 exActs)).writers[1]? = some (.finished true) := by decide
 -- unparsable_marker_blocks_store: its hypotheses hold in the initial system over a garbled entry
